@@ -295,20 +295,25 @@ CLAIMS["C17"] = dict(
 
 CLAIMS["C16"] = dict(
     category="other",
-    text=("Decides: the four edge-normal implementations evaluate, on a generic symbolic edge, to the unit vector (t_y,-t_x)/|t|; "
-          "the closest-point parameter is -v.(a-p)/v.v, cpp clamps it to [0,1], cpp_distance pairs t<0 with the first and t>1 with "
-          "the second end point using sign * end-point distance with the zero sign mapped to +1; every level-set constraint / "
-          "penalty kernel evaluates the obstacle function at quadrature points of (edge coordinates + edge displacements) and the "
-          "vmapped totals pass the same roles; the penalty integrand is stiffness * integral of square(minimum(0, phi)) with "
-          "non-negative weights; mortar weights use smoothed end parameters of their own side (A signed, B through abs), the "
-          "degree-2 Gauss rule, the average of both sides, and the smoothed parameter is the specified C1 ramp; in the nodal assembly the "
-          "(1-xi)-weighted segment integral reaches the first node and the xi-weighted one the second node of each B segment (tags "
-          "propagated through tuple returns, vmap and unpacking to the scatter-add); every argmin over signed edge distances in "
-          "Contact.py ranks absolute values. Distances, "
-          "rigid-motion invariance and overlap lengths as numbers are NOT decided. cpp_line / cpp / cpp_distance are interpreted on a symbolic edge and point with comparisons decided at one rational sample per region (before / between / beyond the ends x left / on / right of the line): parameter, clamped point and signed distance equal the geometric specification in all 7 regions."
-          ""),
-    design_ref="DESIGN.md section 4, C16",
-    technique="static analysis: sibling comparison by symbolic evaluation, pairing/clamping rules, tuple-slot tag dataflow, dependency analysis of sample points, integrand-shape rules")
+    text=("Decided by abstractly interpreting the contact modules on small generic instances (rules/C16_sym.py, an extension of "
+          "optilint.tensoreval with vmap / partial / lax.switch, cond, select, scan, fori_loop / namedtuple classes / broadcasting / boolean "
+          "arrays / select, piecewise, argmin, argsort ... decided at the sample point; symbolic X, U and quadrature rule, opaque level set "
+          "phi[x|y], distances D[g,c], mortar integrals M[..]); PROVED when normal forms are identical, REFUTED only when the two values differ "
+          "numerically at the region's sample point (a concrete counterexample), UNDECIDED otherwise: (O1) the four edge-normal implementations "
+          "evaluate to (t_y,-t_x)/|t|; (O2) the closest-point parameter is -v.(a-p)/v.v, cpp clamps it to [0,1], cpp_distance pairs t<0 with the first "
+          "and t>1 with the second end point with the zero sign mapped to +1, in 11 regions per function plus samples next to every branch "
+          "boundary found in the logged path conditions; the three Contact.py pipelines select the candidate of smallest absolute distance "
+          "(opaque signed distances whose most negative candidate is not the nearest), including the two-closest-edges path into smooth_distance; "
+          "(O3) every level-set constraint / penalty kernel evaluates the obstacle function at quadrature points of (edge coordinates + edge "
+          "displacements) on three edges covering all local sides, the vmapped totals pass the same roles, the penalty energy equals "
+          "k*|edge|*sum w*min(0,phi)^2 for the four sign patterns, integrate_values is interpreted; (O4) mortar weights by coefficient "
+          "extraction with respect to the opaque integrand values over 4 overlap regions (average of both sides, smoothed end parameters of "
+          "the own side, complete Gauss rule with >= 2 points, linear interpolation of xiA, xiB, g), smooth_linear by the contract proved under "
+          "T7 (shared with C18); the assembled nodal field equals, node by node, the sum of the shape-function-weighted integrals (mortar "
+          "integral as an opaque linear functional), segments are coords + disp. compute_intersection and the NaN switch in "
+          "integrate_with_mortar are NOT decided; proofs are for the small generic instances."),
+    design_ref="DESIGN.md section 4, C16 and section 11.8",
+    technique="static analysis: abstract interpretation on small generic instances with region sampling (boundary-guided), opaque function atoms, coefficient extraction; exact normal-form comparison with numeric counterexamples for refutation")
 
 CLAIMS["C12"] = dict(
     category="other",
